@@ -231,12 +231,12 @@ Definition lf_wk_inv (buflen off0 : Z) (done : list bytes) (w : lf_wk) : Prop :=
          {| lf_rev := lf_wrev w; lf_pos := lf_wpos w; lf_off := lf_woff w; lf_cnt := lf_written w |} /\
   lf_subseq w = match done with [] => false | _ :: _ => true end.
 
-Lemma lf_wk_loop_inv guard buflen off0 (f : option lf_filter) (P : lf_res -> bool) rs :
+Lemma lf_wk_loop_inv guard term buflen off0 (f : option lf_filter) (P : lf_res -> bool) rs :
   0 <= off0 -> 0 <= buflen <= lf_status_max ->
   (forall r, In r rs ->
-     match f with None => LfVal true | Some fl => lf_select guard fl r end = LfVal (P r)) ->
+     match f with None => LfVal true | Some fl => lf_select guard term fl r end = LfVal (P r)) ->
   forall done w, lf_wk_inv buflen off0 done w ->
-  exists w', lf_wk_loop guard buflen f rs w = LfVal w' /\
+  exists w', lf_wk_loop guard term buflen f rs w = LfVal w' /\
              lf_wk_inv buflen off0
                (done ++ map lf_link (filter (fun r => lf_visible r && P r) rs)) w'.
 Proof.
@@ -244,7 +244,7 @@ Proof.
   - exists w. cbn [lf_wk_loop filter map]. rewrite app_nil_r. auto.
   - cbn [lf_wk_loop filter]. unfold lf_visible at 1.
     assert (forall x, In x tl ->
-             match f with None => LfVal true | Some fl => lf_select guard fl x end = LfVal (P x)) as Htl.
+             match f with None => LfVal true | Some fl => lf_select guard term fl x end = LfVal (P x)) as Htl.
     { intros x Hx. apply Hsel. right. exact Hx. }
     destruct (lf_beq (lf_path r) lf_wk_path) eqn:Ewk; cbn [negb andb].
     { apply IH; auto. }
@@ -300,12 +300,12 @@ Proof.
 Qed.
 
 (* C20_wellknown_window, for any per-resource filter decision P that the code computes *)
-Lemma lf_print_wellknown_window_gen guard rs (f : option lf_filter) (P : lf_res -> bool) off buflen :
+Lemma lf_print_wellknown_window_gen guard term rs (f : option lf_filter) (P : lf_res -> bool) off buflen :
   0 <= off -> 0 <= buflen <= lf_status_max ->
   (forall r, In r rs ->
-     match f with None => LfVal true | Some fl => lf_select guard fl r end = LfVal (P r)) ->
+     match f with None => LfVal true | Some fl => lf_select guard term fl r end = LfVal (P r)) ->
   let L := lf_listing (filter (fun r => lf_visible r && P r) rs) in
-  exists w, lf_wk_loop guard buflen f rs
+  exists w, lf_wk_loop guard term buflen f rs
               {| lf_wrev := []; lf_wpos := 0; lf_woff := off; lf_written := 0; lf_subseq := false |}
             = LfVal w /\
     {| lf_rstatus := lf_status_of (lf_wpos w) off (lf_woff w) (lf_written w);
@@ -314,7 +314,7 @@ Lemma lf_print_wellknown_window_gen guard rs (f : option lf_filter) (P : lf_res 
        lf_rbytes := lf_window off buflen L; lf_rtotal := len L |}.
 Proof.
   intros Ho Hb Hsel L.
-  destruct (lf_wk_loop_inv guard buflen off f P rs Ho Hb Hsel []
+  destruct (lf_wk_loop_inv guard term buflen off f P rs Ho Hb Hsel []
               {| lf_wrev := []; lf_wpos := 0; lf_woff := off; lf_written := 0; lf_subseq := false |})
     as (w & Hrun & Hi & _).
   { split; [|reflexivity]. apply lf_inv_init. exact Ho. }
